@@ -391,7 +391,9 @@ def case_compound(case, col=None):
     ub = ureg.UnitsContainer({n: e for n, e in fb})
     if not fb:
         ub = ureg.UnitsContainer({})
-    n_ops = A[4] + B[4] + 2
+    # float error bound: a relative error of the factor of a unit is multiplied by |exponent| when the unit is raised to it (d(f^n)/f^n = n df/f),
+    # and pint raises every scale met while descending the definitions to that power
+    n_ops = 2 + sum((R.resolve_spelling(n).nops + 1) * max(1, math.ceil(abs(Fraction(e)))) for n, e in fa + fb)
     big = abs(ratio) > Fraction(10) ** 250 or (ratio != 0 and abs(ratio) < Fraction(10) ** -250)
     if big and not (nit == "Fraction" and exactable):
         raise Skip("ratio_outside_float_range")
